@@ -43,6 +43,15 @@ def run(ctx):
         cases.append(line)
         metas[k] = m
     res = ctx.component('K-UPD', cases, keys={'dims', 'u1', 'v1', 'w1', 'sweep_u', 'sweep_v', 'sweep_w'})
+    # the guards AT the threshold: every guarded quantity exactly 1e-6 (and one ulp beside), so that `>` / `>=` and `<` / `<=` differ
+    thr = [gen.gen_upd_threshold(rng.fork('th%d' % k), 800000 + k, family=gen.THRESHOLD_FAMILIES[k % len(gen.THRESHOLD_FAMILIES)])[0]
+           for k in range(ctx.budget(20, 200) * len(gen.THRESHOLD_FAMILIES))]
+    rthr = ctx.component('K-UPD(threshold-exact)', thr, keys={'dims', 'u1', 'v1', 'w1', 'sweep_u', 'sweep_v', 'sweep_w'})
+    if rthr:
+        for mm in rthr['mismatches'][:3]:
+            # every operation on these states is exact in binary64, so the model's value IS the documented update
+            ctx.violation('threshold', 'on a state whose guarded quantity equals 1e-6 exactly (or sits one ulp beside it; all arithmetic exact) the update differs from the documented one (strict > 1e-6 to update, strict < 1e-6 to snap): %s' % mm.get('key'),
+                          {'case': mm.get('case'), 'observable': mm.get('key'), 'implementation': mm.get('impl'), 'documented': mm.get('model')})
     traj, tmetas = [], {}
     for k in range(ctx.budget(60, 1500)):
         line, m = gen.gen_e2e(rng.fork('t%d' % k), 600000 + k, maxit_max=12, r_max=2, trace=2)
